@@ -2141,7 +2141,9 @@ theorem walk_step_sim (reqs : Nat → Sub.Req × Sub.Acl) {V : Views} {H : Strin
     refine ⟨[.visit (t, k)],
       { b.ins (.handle (t, k) (sh.gen (t, k))) with walker := .walking (todo.filter (· ≠ (t, k))) ((t, k) :: vis) },
       (t, k) :: vis, ?_, ?_, List.mem_cons_self .., fun x hx => List.mem_cons_of_mem _ hx⟩
-    · simp [runSub, SubLTS.subFire, hwk, h.status, huo', hpres, hwalks, hnvis]
+    · have hcnt := SubLTS.count_le_extra_of_not_mem hnvis ((ltsOf rq).extra (t, k))
+      simp only [runSub, SubLTS.subFire, hwk]
+      rw [if_pos ⟨h.status, huo', hpres, hwalks, hcnt⟩]
     · have hins_q : (b.ins (.handle (t, k) (sh.gen (t, k)))).q = b.q ++ [(.handle (t, k) (sh.gen (t, k)), 0)] := by
         rw [SubLTS.ins_q, h.closed]
         simp only [Bool.false_eq_true, if_false, SubLTS.qins, hnmem, and_false]
